@@ -680,13 +680,44 @@ func newExecutionRule(c *Ctx) {
 	}
 }
 
+// publishSeq names the steps of publishing an async result among evs: "result" (the atomic result cell receives
+// res, directly or through a fresh box), "done" (the flag is set), "close" (the done channel ch is closed); anything
+// else is listed as it is.
+func publishSeq(ev *Evaluator, st *State, evs []*Event, ch, res *T) []string {
+	var seq []string
+	for _, x := range evs {
+		switch {
+		case isCall(x, "Store") && x.Recv != nil && x.Recv.Op == "faddr" && FieldName(x.Recv.Aux) == "result":
+			seq = append(seq, "result")
+			a := x.Args[0]
+			if !(a == res || (a.Op == "alloc" && ev.load(st, a, nil) == res)) {
+				seq = append(seq, "wrong-value")
+			}
+		case isCall(x, "Store") && x.Recv != nil && x.Recv.Op == "faddr" && FieldName(x.Recv.Aux) == "done":
+			if isTrue(x.Args[0]) {
+				seq = append(seq, "done")
+			} else {
+				seq = append(seq, "done=false")
+			}
+		case x.Kind == EvClose && x.Addr == ch:
+			seq = append(seq, "close")
+		default:
+			seq = append(seq, "other:"+x.String())
+		}
+	}
+	return seq
+}
+
 // ---- async result object --------------------------------------------------------------------------------
 
 func asyncResultRules(c *Ctx) {
 	c.Rule("future")
 	// record: store result → done.Store(true) → close(doneChan)
 	if fn := c.P.Func("failsafe.(*executionResult).record"); fn == nil {
-		c.Unresolved("failsafe.(*executionResult).record", "not found")
+		// the publication is written out in the async runner itself: same order, checked there
+		if !runnerPublishes(c) {
+			c.Unresolved("failsafe.(*executionResult).record", "not found, and the async runner does not publish the result itself")
+		}
 	} else {
 		ev := NewEvaluator(c.P, EvalConfig{})
 		ok := true
@@ -696,29 +727,7 @@ func asyncResultRules(c *Ctx) {
 		res := ev.Param(fn, fn.Params[1].Name())
 		for _, p := range ps {
 			evs := impure(p)
-			var seq []string
-			for _, x := range evs {
-				switch {
-				case isCall(x, "Store") && x.Recv.Op == "faddr" && FieldName(x.Recv.Aux) == "result":
-					seq = append(seq, "result")
-					// the stored pointer must lead to the recorded result
-					a := x.Args[0]
-					// … directly (atomic.Pointer[PolicyResult]) or through a fresh box (atomic.Pointer[*PolicyResult])
-					if !(a == res || (a.Op == "alloc" && ev.load(p.State, a, nil) == res)) {
-						seq = append(seq, "wrong-value")
-					}
-				case isCall(x, "Store") && x.Recv.Op == "faddr" && FieldName(x.Recv.Aux) == "done":
-					if isTrue(x.Args[0]) {
-						seq = append(seq, "done")
-					} else {
-						seq = append(seq, "done=false")
-					}
-				case x.Kind == EvClose && x.Addr == ch:
-					seq = append(seq, "close")
-				default:
-					seq = append(seq, "other:"+x.String())
-				}
-			}
+			seq := publishSeq(ev, p.State, evs, ch, res)
 			if p.Exit != ExitReturn || strings.Join(seq, ",") != "result,done,close" {
 				ok = false
 				c.Fail(c.fn(fn), c.P.FuncPos(fn), "record must publish in this order, once each: store the result, set the done flag, close the done channel; found: "+strings.Join(seq, ", "), pathTrace(ev, p))
@@ -998,8 +1007,19 @@ func executeAsyncRule(c *Ctx) {
 					own = append(own, x)
 				}
 			}
-			if q.Exit != ExitReturn || len(own) != 2 || !isCall(own[0], "execute") || own[0].Args[1] != exec || own[0].Args[0] != ev.Param(fn, "fn") ||
-				!isCall(own[1], "record") || own[1].Recv != r || own[1].Args[0] != own[0].Res[0] {
+			written := false
+			if len(own) == 4 && isCall(own[0], "execute") && q.Exit == ExitReturn && own[0].Args[1] == exec && own[0].Args[0] == ev.Param(fn, "fn") {
+				// record's three steps written out in the runner, on the result object itself
+				onR := true
+				for _, x := range own[1:3] {
+					if x.Recv == nil || x.Recv.Op != "faddr" || x.Recv.Args[0] != r {
+						onR = false
+					}
+				}
+				written = onR && strings.Join(publishSeq(ev, q.State, own[1:], ev.LoadField(q.State, r, "doneChan"), own[0].Res[0]), ",") == "result,done,close"
+			}
+			if !written && (q.Exit != ExitReturn || len(own) != 2 || !isCall(own[0], "execute") || own[0].Args[1] != exec || own[0].Args[0] != ev.Param(fn, "fn") ||
+				!isCall(own[1], "record") || own[1].Recv != r || own[1].Args[0] != own[0].Res[0]) {
 				okRun = false
 				c.Fail(name+"#runner", c.P.FuncPos(ev.EventFn(g)), "the runner must be exactly result.record(e.execute(fn, exec, withExec)): the same execute path as sync, its value recorded once as the goroutine's last action", pathTrace(ev, q))
 			}
@@ -1038,4 +1058,45 @@ func executeAsyncRule(c *Ctx) {
 	if okRun {
 		c.Ok(name+"#runner", pos, "runner = result.record(execute(fn, exec, withExec))")
 	}
+}
+
+// runnerPublishes: the goroutine executeAsync starts ends, on every path, with the publication sequence written out
+// (store the result execute returned, set the done flag, close the done channel) — the form record() takes when it is
+// inlined into its only caller.
+func runnerPublishes(c *Ctx) bool {
+	ea := c.P.Func("failsafe.(*executor).executeAsync")
+	if ea == nil {
+		return false
+	}
+	ev := NewEvaluator(c.P, EvalConfig{})
+	found, good := false, true
+	for _, p := range ev.Run(ea) {
+		if p.Exit != ExitReturn || len(p.Rets) != 1 {
+			continue
+		}
+		r := p.Rets[0]
+		for _, g := range eventsWhere(p, func(x *Event) bool { return x.Kind == EvGo }) {
+			if ev.EventFn(g) == nil || g.Snap == nil {
+				return false
+			}
+			for _, q := range ev.RunEvent(g.Snap, g, nil) {
+				var own []*Event
+				for _, x := range impure(q) {
+					if x.Idx >= q.Base {
+						own = append(own, x)
+					}
+				}
+				found = true
+				if q.Exit != ExitReturn || len(own) != 4 || !isCall(own[0], "execute") ||
+					strings.Join(publishSeq(ev, q.State, own[1:], ev.LoadField(q.State, r, "doneChan"), own[0].Res[0]), ",") != "result,done,close" {
+					good = false
+					c.Fail("failsafe.(*executor).executeAsync#publish", c.P.FuncPos(ev.EventFn(g)), "the async runner must publish in this order, once each, after execute returned: store the result, set the done flag, close the done channel", pathTrace(ev, q))
+				}
+			}
+		}
+	}
+	if found && good {
+		c.Ok("failsafe.(*executor).executeAsync#publish", c.P.FuncPos(ea), "runner: execute → result stored → done=true → close(doneChan)")
+	}
+	return found
 }
